@@ -113,15 +113,14 @@ End Session.
 
 Ltac splits := repeat match goal with |- _ /\ _ => split end.
 
-Theorem path_segments_session_ok dbg u ops u' : wf_b u = true -> host_text_ok u -> has_authority_b u = true ->
+Lemma path_segments_session_eval dbg u ops u' : wf_b u = true ->
+  byte_eqb (ser u) (scheme_end u + 1) 47 = true ->
+  (path_end u = path_start u \/ byte_eqb (ser u) (path_start u) 47 = true) ->
   Forall psm_op_usv ops -> path_segments_session dbg u ops = Some (u', SOk) ->
-  wf_b u' = true /\ host_text_ok u' /\ same_front dbg u u'
-  /\ query dbg u' = query dbg u /\ fragment dbg u' = fragment dbg u
-  /\ exists P, path u' = Some P /\ new_path_ok P.
+  exists P, u' = with_path u P /\ new_path_ok P.
 Proof.
-  intros W HT Ha Hops H.
-  pose proof (wf_auth_facts u W Ha) as F. destruct (wf_ps_le_path_end u W) as [B5 B6].
-  pose proof (af_ue F); pose proof (af_hs F); pose proof (af_he F); pose proof (af_ps F).
+  intros W Hsl Hhead Hops H.
+  destruct (wf_ps_le_path_end u W) as [B5 B6]. pose proof (wf_se_lt_ps u W) as B0.
   destruct (wf_scheme_facts u W) as (Hse & Hc & Hlt).
   set (pe := path_end u) in *. set (ps := path_start u) in *.
   set (s0 := nfirstn ps (ser u)).
@@ -130,27 +129,18 @@ Proof.
   assert (nlen x0 = pe) as Lx0 by (apply nlen_nfirstn; exact B6).
   (* the serialization the session starts from satisfies the session invariant *)
   assert (SInv s0 ps x0) as I0.
-  { pose proof W as W0. apply wf_b_iff in W0. rewrite Ha in W0. destruct W0 as (_ & (_ & PS) & (Q1 & Q2 & Q3 & Q4 & Q5)).
+  { pose proof W as W0. apply wf_b_iff in W0. destruct W0 as (_ & _ & (Q1 & Q2 & Q3 & Q4 & Q5)).
     change (path_end u) with pe in Q4. change (path_start u) with ps in Q4.
     split; [|split].
     - unfold x0, s0. apply nfirstn_nfirstn. exact B5.
     - unfold x0. replace pe with (ps + (pe - ps)) by lia. rewrite nskipn_nfirstn_comm. exact Q4.
-    - rewrite Lx0. destruct (N.eq_dec pe ps) as [E|E]; [left; exact E|]. right.
-      unfold byte_eqb, x0. rewrite nnth_nfirstn by lia. fold (byte_eqb (ser u) ps 47).
-      assert (forall c, (c = 63 \/ c = 35) -> byte_eqb (ser u) ps c = true -> False) as Hno.
-      { intros c Hcc Hb. apply byte_eqb_nnth in Hb.
-        assert (nnth (nfirstn (pe - ps) (nskipn ps (ser u))) 0 = Some c) as Hn
-          by (rewrite nnth_nfirstn by lia; rewrite nnth_nskipn, N.add_0_r; exact Hb).
-        destruct (nfirstn (pe - ps) (nskipn ps (ser u))) as [|y r]; [discriminate|].
-        cbn in Hn. inversion Hn; subst y. cbn [forallb] in Q4. apply andb_true_iff in Q4. destruct Q4 as [Q4 _].
-        unfold no_qh in Q4. destruct Hcc; subst c; discriminate. }
-      destruct PS as [PS|[PS|[PS|PS]]]; [fold ps in PS; lia | exact PS | exfalso; eapply (Hno 63); [left|]; tauto
-                                       | exfalso; eapply (Hno 35); [right|]; tauto]. }
+    - rewrite Lx0. destruct Hhead as [E|E]; [left; exact E|].
+      destruct (N.eq_dec pe ps) as [E'|E']; [left; exact E'|]. right.
+      unfold byte_eqb, x0. rewrite nnth_nfirstn by lia. exact E. }
   (* open the session *)
   unfold path_segments_session, path_segments_mut in H.
   rewrite (cannot_be_a_base_eval u W) in H. cbn [bindo] in H.
-  pose proof Ha as Ha2. unfold has_authority_b in Ha2. apply css_bytes in Ha2. destruct Ha2 as (_ & C1 & _).
-  rewrite (proj2 (byte_eqb_true_iff _ _ _) C1) in H. cbn [negb] in H.
+  rewrite Hsl in H. cbn [negb] in H.
   unfold psm_new in H. rewrite (take_after_path_eval u W) in H. cbn [bindo] in H. fold pe x0 in H.
   destruct (u_scheme_type (set_ser u x0)) as [st|] eqn:Est; cbn [bindo] in H; [|discriminate].
   match type of H with bindo (bindo (bindo ?c _) _) _ = _ => destruct c as [[]|]; cbn [bindo] in H; [|discriminate] end.
@@ -217,8 +207,39 @@ Proof.
   { split; [exact I2|]. destruct I3 as [I3|I3].
     - left. unfold P. apply nskipn_all. lia.
     - right. unfold P. apply byte_eqb_nnth in I3. rewrite (nskipn_cons_of_nnth _ _ _ I3). eexists. reflexivity. }
-  assert (u' = with_path u P) as ->.
-  { inversion Ecl. unfold with_path. fold pe ps. rewrite Ex1. rewrite nlen_app, Ls0. rewrite <- app_assoc. reflexivity. }
+  exists P. split; [|split; assumption].
+  inversion Ecl. unfold with_path. fold pe ps. rewrite Ex1. rewrite nlen_app, Ls0. rewrite <- app_assoc. reflexivity.
+Qed.
+
+Lemma auth_path_head u : wf_b u = true -> has_authority_b u = true ->
+  byte_eqb (ser u) (scheme_end u + 1) 47 = true
+  /\ (path_end u = path_start u \/ byte_eqb (ser u) (path_start u) 47 = true).
+Proof.
+  intros W Ha. split.
+  - pose proof Ha as Ha2. unfold has_authority_b in Ha2. apply css_bytes in Ha2. destruct Ha2 as (_ & C1 & _).
+    apply byte_eqb_true_iff. exact C1.
+  - destruct (wf_ps_le_path_end u W) as [B5 B6].
+    pose proof W as W0. apply wf_b_iff in W0. rewrite Ha in W0. destruct W0 as (_ & (_ & PS) & (Q1 & Q2 & Q3 & Q4 & Q5)).
+    destruct (N.eq_dec (path_end u) (path_start u)) as [E|E]; [left; exact E|]. right.
+    assert (forall c, (c = 63 \/ c = 35) -> byte_eqb (ser u) (path_start u) c = true -> False) as Hno.
+    { intros c Hcc Hb. apply byte_eqb_nnth in Hb.
+      assert (nnth (nfirstn (path_end u - path_start u) (nskipn (path_start u) (ser u))) 0 = Some c) as Hn
+        by (rewrite nnth_nfirstn by lia; rewrite nnth_nskipn, N.add_0_r; exact Hb).
+      destruct (nfirstn (path_end u - path_start u) (nskipn (path_start u) (ser u))) as [|y r]; [discriminate|].
+      cbn in Hn. inversion Hn; subst y. cbn [forallb] in Q4. apply andb_true_iff in Q4. destruct Q4 as [Q4 _].
+      unfold no_qh in Q4. destruct Hcc; subst c; discriminate. }
+    destruct PS as [PS|[PS|[PS|PS]]]; [lia | exact PS | exfalso; eapply (Hno 63); [left|]; tauto
+                                     | exfalso; eapply (Hno 35); [right|]; tauto].
+Qed.
+
+Theorem path_segments_session_ok dbg u ops u' : wf_b u = true -> host_text_ok u -> has_authority_b u = true ->
+  Forall psm_op_usv ops -> path_segments_session dbg u ops = Some (u', SOk) ->
+  wf_b u' = true /\ host_text_ok u' /\ same_front dbg u u'
+  /\ query dbg u' = query dbg u /\ fragment dbg u' = fragment dbg u
+  /\ exists P, path u' = Some P /\ new_path_ok P.
+Proof.
+  intros W HT Ha Hops H. destruct (auth_path_head u W Ha) as [Hsl Hhead].
+  destruct (path_segments_session_eval dbg u ops u' W Hsl Hhead Hops H) as (P & -> & HP1 & HP2).
   splits.
   - apply wp_wf; assumption.
   - apply wp_host_text_ok; assumption.
